@@ -782,3 +782,33 @@ func (f *Func) StrictSuccessReturnsOrNilPtr() []Site {
 	}
 	return out
 }
+
+// PostDominatedOrFails reports whether every path from a that returns to a
+// loop head or reaches a normal exit passes b, ignoring paths that leave the
+// function through a return whose error result is not the nil constant.
+func (f *Func) PostDominatedOrFails(a, b Site) bool {
+	g := f.Graph()
+	stop := map[*flow.Vertex]bool{b.V: true}
+	for _, r := range f.Returns() {
+		if f.ClassifyReturn(r) == RetFailure {
+			stop[r.V] = true
+		}
+	}
+	reach := g.Reach(a.V, nil, stop)
+	// a path that comes back to a itself (loop) without b, or reaches the
+	// exit through a non-failure return, violates
+	for v := range reach {
+		if stop[v] {
+			continue
+		}
+		for _, e := range v.Out {
+			if e.To == a.V && v != a.V {
+				return false
+			}
+			if e.To == g.Exit {
+				return false
+			}
+		}
+	}
+	return true
+}
